@@ -5,6 +5,7 @@ package filereplication
 import (
 	"context"
 	"errors"
+	"fmt"
 	"hash"
 	"io"
 
@@ -36,6 +37,11 @@ func (f *c25Fetcher) Fetch(ctx context.Context, peerAddr string, entry *raft.Fil
 	case 1: // transport error after k tail bytes
 		k := int64(zz.Choice("cut_"+tag, int(size-byteOffset)))
 		n, _ := dst.Write(c25Good[byteOffset : byteOffset+k])
+		if zz.Bool("cut_is_graceful_close_" + tag) {
+			// the peer closed the connection cleanly mid-body: io.CopyN reports io.EOF
+			// and FetchClient wraps it ("stream body: EOF ...")
+			return int64(n), fmt.Errorf("stream body: %w (wrote %d of %d tail bytes)", io.EOF, n, size-byteOffset)
+		}
 		return int64(n), errors.New("connection reset")
 	default: // all bytes arrive but they are not the manifest's bytes
 		n, _ := dst.Write(c25Bad[byteOffset:])
